@@ -58,6 +58,16 @@ pub fn eval(op: &str, a: &[&str]) -> Option<String> {
 }
 
 pub fn gen(ctx: &Ctx, rng: &mut Rng, out: &mut Vec<String>) {
+    // entries at the top of the binary64 range on the diagonal (2^1023 and 1.5 * 2^1023: the average of a mirror pair, and of the centre
+    // entry with itself, is finite and representable although the pair's sum is not), small entries everywhere else
+    {
+        let h1 = f64::from_bits(0x7fe0000000000000); let h2 = f64::from_bits(0x7fe8000000000000); let h3 = f64::from_bits(0x7fd0000000000000);
+        let cases: Vec<(Vec<usize>, Vec<f64>)> = vec![
+            (vec![5], vec![1.0, 2.0, h2, 3.0, 4.0]), (vec![3], vec![0.5, h1, 0.25]), (vec![3, 3], vec![1.0, 2.0, h1, 3.0, h2, 4.0, h2, 5.0, 6.0]),
+            (vec![3, 3], vec![0.0, 0.0, h2, 0.0, h3, 0.0, h2, 0.0, 0.0]), (vec![2, 2], vec![1.0, h1, h1, 2.0]), (vec![2, 3, 2], { let mut d = vec![1.0; 12]; d[3] = h1; d[8] = h2; d[4] = h3; d[7] = h3; d }),
+        ];
+        for (sh, d) in cases { for f in ["zero", "nan", "minus-one", "inf"] { out.push(format!("c05.fold\t{}\t{}\t{}", nats(&sh), bits(&d), f)); } out.push(format!("c05.fold2\t{}\t{}", nats(&sh), bits(&d))); }
+    }
     // spectra whose total allele count passes 2^16 and 2^17 (narrow integer types for counts): 1-D and very unbalanced 2-D
     for (i, sh) in [vec![65537usize], vec![131071], vec![131073], vec![140001], vec![2, 131071], vec![131072, 2], vec![3, 70001], vec![300, 500]].into_iter().enumerate() {
         if !ctx.tier_thorough && i % 2 == 0 && i != 2 { continue; }
